@@ -180,8 +180,9 @@ def universe_tags(st):
         f.add("feature:renameWithoutOnly")
     if st["m2"]["defpriv"] and st["m2"]["use1"] != "none":
         f.add("feature:defaultPrivateModuleUses")
-    second_path = (st["p"]["use1"] != "none" and st["p"]["use2"] != "none" and st["m2"]["use1"] != "none") or \
-                  (st["p"]["use1"] != "none" and st["q"].get("use1", "none") != "none")
+    # paths along which module m1 is reached from the program: directly, through m2, from the internal procedure
+    paths = [st["p"]["use1"] != "none", st["p"]["use2"] != "none" and st["m2"]["use1"] != "none", st["q"].get("use1", "none") != "none"]
+    second_path = sum(paths) >= 2
     if "onlylx" in (st["m2"]["use1"], st["p"]["use1"]) and second_path:
         f.add("feature:onlyRename+secondPathToSameModule")
     return f
